@@ -122,9 +122,40 @@ def parseOp (ts : List String) : Option Op :=
   | ["end"] => some .«end»
   | _ => none
 
+def parseTAct (s : String) : Option TAct :=
+  if s = "t" then some .tunref else if s = "T" then some .tref
+  else match parseAct s with
+    | some .unbindSelf => none
+    | some a => some (.win a)
+    | none => none
+
+def parsePos (s : String) : Option (Int × Int) :=
+  match s.splitOn "," with
+  | [l, c] => do some (← int? l, ← int? c)
+  | _ => none
+
+def parseTok (s : String) : Option Tok :=
+  match s.toList with
+  | ['a'] => some .chr | ['A'] => some .alt | ['U'] => some .up | ['E'] => some .esc
+  | 'P' :: r => (parsePos (String.ofList r)).map (fun p => .press p.1 p.2)
+  | 'D' :: r => (parsePos (String.ofList r)).map (fun p => .drag p.1 p.2)
+  | 'R' :: r => (parsePos (String.ofList r)).map (fun p => .release p.1 p.2)
+  | _ => none
+
 def parseXOp (ts : List String) : Option XOp :=
   match ts with
   | ["mprint", l, c, h] => do some (.mprint (← int? l) (← int? c) (← hexBytes? h))
+  | ["newin", l, c] => do some (.newin (← int? l) (← int? c))
+  | "tbind" :: ev :: r :: acts => do
+    let ev ← if ev = "key" then some Ev.key else if ev = "mouse" then some Ev.mouse else none
+    some (.tbind ev ((← int? r) ≠ 0) (← acts.mapM parseTAct))
+  | ["tunbind", id] => do some (.tunbind (← int? id))
+  | "tpush" :: toks => do some (.tpush (← toks.mapM parseTok))
+  | "tread" :: toks => do some (.tread (← toks.mapM parseTok))
+  | "twait" :: toks => do some (.twait (← toks.mapM parseTok) false)
+  | "twaitv" :: toks => do some (.twait (← toks.mapM parseTok) true)
+  | ["tcheck"] => some .tcheck
+  | ["tick", ms] => do some (.tick (← int? ms))
   | _ => (parseOp ts).map .base
 
 /-- The liveness columns of an implementation observation: (windows alive?, pens, strings, buffers, term). -/
